@@ -4,6 +4,7 @@ import ScnVerif.Gen.Quadratures
 /-! driver ops for C18 (all numbers are f64 bit patterns in hex unless noted):
 * `c18.table <disk12|disk55|disk256_cheb>` → `den n x0 y0 w0 x1 …` (decimal integers, generated table)
 * `c18.beam a(3) base(3) r h start(3) n(3)` → length (or `inf`); `c18.beamold`: the same with the pre-fix formula
+* `c18.center a(3) base(3) h` → centre (3 numbers); `c18.volume r h` → volume
 * `c18.selectk mult cap lo h r` → decimal k
 * `c18.cheb x1 w1 x2 w2 …` → re-weighted rule `x1 w1' …`
 * `c18.quad <kind> a(3) base(3) r h sr x1 w1 …` → `p.x p.y p.z w …` for every point
@@ -60,6 +61,16 @@ def handle : List String → Option String
       match ← floats? args with
       | [ax, ay, az, bx, b_y, bz, r, h, sx, sy, sz, nx, ny, nz] =>
           some (outLen (beamIntersectionOld (v3 ax ay az) (v3 bx b_y bz) r h (v3 sx sy sz) (v3 nx ny nz)))
+      | _ => none
+  | "c18.center" :: args => do
+      match ← floats? args with
+      | [ax, ay, az, bx, b_y, bz, h] =>
+          let c := center (v3 ax ay az) (v3 bx b_y bz) h
+          some (f64Hex c.x ++ " " ++ f64Hex c.y ++ " " ++ f64Hex c.z)
+      | _ => none
+  | "c18.volume" :: args => do
+      match ← floats? args with
+      | [r, h] => some (f64Hex (volume r h))
       | _ => none
   | "c18.selectk" :: args => do
       match ← floats? args with
